@@ -140,7 +140,7 @@ Qed.
 
 Lemma step_inv : forall t c w o, all_percall t = true -> inv w -> inv (fst (step t c w o)).
 Proof.
-  intros t c w o Ht Hw. destruct o as [|m|k flag a|j a x]; simpl.
+  intros t c w o Ht Hw. destruct o as [|m|k flag a|j a x|j]; simpl.
   - destruct (ensure_import_pc t c (RS (r_next (w_rs w)) []) [] 0 Ht) as [imp' E]. rewrite E.
     destruct Hw as (Hc & Hf & H1). unfold inv; simpl. auto.
   - destruct (ensure_import_pc t c (w_rs w) (w_imp w) m Ht) as [imp' E]. rewrite E.
@@ -149,6 +149,10 @@ Proof.
   - destruct (j <? w_base w); [exact Hw|].
     destruct (nth_error (w_objs w) (N.to_nat j)); [|exact Hw].
     destruct (plan_act t (w_slots w) j o a x); [now apply run_plan_inv|exact Hw].
+  - destruct (j <? w_base w); [exact Hw|].
+    destruct (nth_error (w_objs w) (N.to_nat j)); [|exact Hw].
+    destruct (config_driven (o_kind o) (o_flag o)); [|exact Hw].
+    destruct (plan_new t (o_kind o) (o_flag o) (o_args o)); [now apply run_plan_inv|exact Hw].
 Qed.
 
 Lemma run_from_inv : forall t c h w, all_percall t = true -> inv w -> inv (run_from t c w h).
@@ -204,6 +208,18 @@ Proof.
   intros t c Ht h a b fk fn fk' fn' k n Hab Hak Han Hbk Hbn [Hd|Hd].
   - destruct k as [| |i]; try discriminate. destruct (fresh_slot_unique t c Ht h a fk b fk' i Hak Hbk). contradiction.
   - destruct n as [| |i]; try discriminate. destruct (fresh_slot_unique t c Ht h a fn b fn' i Han Hbn). contradiction.
+Qed.
+
+(* building again from the same configuration object: the new artifact (its id is the number of artifacts before the
+   op) shares no draw with the artifact the configuration was first used for -- nor with any other *)
+Theorem config_reuse_fresh_lem : forall t c, all_percall t = true ->
+  forall h j, j < nlen (w_objs (run t c h)) ->
+  forall f f' i,
+    In (j, f, ODraw i) (w_slots (run t c (h ++ [Again j]))) ->
+    In (nlen (w_objs (run t c h)), f', ODraw i) (w_slots (run t c (h ++ [Again j]))) -> False.
+Proof.
+  intros t c Ht h j Hj f f' i H1 H2.
+  destruct (fresh_slot_unique t c Ht (h ++ [Again j]) _ _ _ _ _ H1 H2) as [E _]. lia.
 Qed.
 
 (* ------------------------------------------------------------------ restarts, for ANY table *)
@@ -316,7 +332,7 @@ Qed.
 
 Lemma step_after : forall t c n0 old w o, after n0 old w -> after n0 old (fst (step t c w o)).
 Proof.
-  intros t c n0 old w o Hw. destruct o as [|m|k flag a|j a x]; simpl.
+  intros t c n0 old w o Hw. destruct o as [|m|k flag a|j a x|j]; simpl.
   - destruct Hw as (H1 & H2 & later & EL & HL). unfold ensure_import.
     destruct (import_list t (RS (r_next (w_rs w)) []) [] (closure_of c 0)) as [[s1 imp1] d1] eqn:E1.
     assert (Hs : rs_ok n0 (RS (r_next (w_rs w)) [])) by (split; simpl; [exact H1|intros k v []]).
@@ -332,6 +348,10 @@ Proof.
   - destruct (j <? w_base w); [exact Hw|].
     destruct (nth_error (w_objs w) (N.to_nat j)); [|exact Hw].
     destruct (plan_act t (w_slots w) j o a x); [now apply run_plan_after|exact Hw].
+  - destruct (j <? w_base w); [exact Hw|].
+    destruct (nth_error (w_objs w) (N.to_nat j)); [|exact Hw].
+    destruct (config_driven (o_kind o) (o_flag o)); [|exact Hw].
+    destruct (plan_new t (o_kind o) (o_flag o) (o_args o)); [now apply run_plan_after|exact Hw].
 Qed.
 
 Lemma run_from_after : forall t c n0 old h w, after n0 old w -> after n0 old (run_from t c w h).
